@@ -91,6 +91,7 @@ struct PgpCtx {   // what the parsers' caller holds locally
 };
 static PgpCtx g_pgp;
 inline Oct str2oct(const std::string &s) { return Oct(s.begin(), s.end()); }
+inline std::string b2sx(const Oct &o) { return std::string(o.begin(), o.end()); }
 
 inline int pgp_armor_decode(const std::string &s) { Oct out; tmcg_openpgp_armor_t t = PGP::ArmorDecode(s, out); g_sink += out.size(); return t == TMCG_OPENPGP_ARMOR_UNKNOWN ? REFUSED : ACCEPTED; }
 
